@@ -125,7 +125,7 @@ class C14(ProtoSpec):
             self.driver = Driver(binds, names=("1",), mids=("m",), msgs=(("p", "00", "i1"),),
                                  kinds=("bind", "claim", "release", "open", "add", "close"),
                                  release_forms=("bare",), close_forms=("bare", "unopened"), moods=("happy",), max_adds=1)
-            self.depth = 7
+            self.depth = 5          # from [] and from "A and B are bound" (so 7 events in all)
         else:
             binds = [[(X, "A")], [(X, "A"), (X, "B")], [(X, "A"), (X, "B"), (X, "C")], [(X, "A"), (X, "B"), (X, "C")]]
             self.driver = Driver(binds, names=("1", "2"), mids=("m",), msgs=(("p", "00", "i1"),),
@@ -137,6 +137,9 @@ class C14(ProtoSpec):
     def __init__(self, tier="quick"):
         ProtoSpec.__init__(self, tier)
         self.cfgs = [self.cfg, self.cfg]
+
+    def seeds(self):
+        return [[], [("cbind", 0, "X", "A"), ("cbind", 1, "X", "B")], [("cbind", 0, "X", "A"), ("cbind", 1, "X", "A")]]
 
     def enabled(self, worlds, mon):
         evs = self.driver.enabled(worlds[0], mon, mon.counters)
